@@ -235,8 +235,102 @@ class ReferenceRaterMemo(RaterMemo):
                                    training_set=ts, names=names, lda=lda)
 
 
+TREE_REGRESSORS = {"AdaBoost", "Decision Tree", "Extra Trees",
+                   "Gradient Tree Boosting", "Random Forest"}
+
+
+def harness_load_ts(path, names):
+    """The documented meaning of a training-set directory, read by the
+    harness itself: one text column per continuous feature (in sorted
+    order), NaN of worst-rated samples imputed by the mean of the other
+    worst-rated samples, remaining NaN rows removed, +-inf replaced by
+    +-2*max|finite values of that feature|."""
+    import pathlib
+    from nanite.rate.features import IndentationFeatures
+    path = pathlib.Path(path)
+    fnames = sorted(n for n in dir(IndentationFeatures)
+                    if n.startswith("feat_con_"))
+    if names:
+        fnames = [n for n in fnames if n in names]
+    cols = [np.loadtxt(str(path / f"train_{fn}.txt"), dtype=float, ndmin=2)
+            for fn in fnames]
+    X = np.concatenate(cols, axis=1)
+    y = np.loadtxt(str(path / "train_response.txt"), dtype=float)
+    zero = y == 0
+    for j in range(X.shape[1]):
+        col = X[:, j]
+        nan = np.isnan(col)
+        todo = np.logical_and(zero, nan)
+        ref = np.logical_and(zero, ~nan)
+        if np.any(todo) and np.any(ref):
+            X[todo, j] = np.mean(col[ref])
+    keep = ~np.array(np.sum(np.isnan(X), axis=1), dtype=bool)
+    X, y = X[keep, :], y[keep]
+    for j in range(X.shape[1]):
+        col = X[:, j]
+        inf = np.isinf(col)
+        if np.any(inf):
+            extreme = np.nanmax(np.abs(col[~inf]))
+            X[np.isposinf(col), j] = 2 * extreme
+            X[np.isneginf(col), j] = -2 * extreme
+    return X, y
+
+
+class HarnessPipelineMemo(RaterMemo):
+    """Regression pipelines assembled by the harness from scikit-learn and
+    the documented rules only (no IndentationRater, no get_rater): tree
+    based regressors get neither scaling nor LDA by default, the others
+    both; an explicit `lda` wins; samples are weighted by the inverse
+    occurrence of their rating."""
+
+    @staticmethod
+    def defaults_key(regressor):
+        return "pristine"
+
+    def build(self, regressor, training_set, names, lda):
+        import nanite.rate.rater as nr
+        from nanite.rate.regressors import reg_dict
+        from sklearn.discriminant_analysis import LinearDiscriminantAnalysis
+        from sklearn.pipeline import make_pipeline
+        from sklearn.preprocessing import StandardScaler
+        if isinstance(training_set, tuple):
+            X, y = training_set
+        else:
+            shipped = nr.get_available_training_sets()
+            if isinstance(training_set, str) and training_set in shipped:
+                path = nr.IndentationRater.get_training_set_path(
+                    training_set)
+            else:
+                path = training_set
+            X, y = harness_load_ts(path, names)
+        pristine = seams._PRISTINE.get("nanite.rate.regressors.reg_dict")
+        cls, kw = (pristine[0] if pristine else reg_dict)[regressor]
+        tree = regressor in TREE_REGRESSORS
+        steps = []
+        if not tree:
+            steps.append(StandardScaler())
+        if (not tree) if lda is None else bool(lda):
+            steps.append(LinearDiscriminantAnalysis())
+        steps.append(cls(**dict(kw)))
+        pipe = make_pipeline(*steps)
+        y = np.asarray(y)
+        w = np.zeros(y.shape[0], dtype=float)
+        for ii in range(11):
+            idx = y == ii
+            occur = np.sum(idx)
+            if occur:
+                w[idx] = 1 / occur
+        w /= np.sum(w)
+        with warnings.catch_warnings():
+            warnings.simplefilter("ignore")
+            pipe.fit(np.asarray(X), y,
+                     **{f"{pipe.steps[-1][0]}__sample_weight": w})
+        return pipe
+
+
 RATERS = RaterMemo()           # serves the nanite.indent.get_rater seam
 REF_RATERS = ReferenceRaterMemo()
+HARNESS_PIPES = HarnessPipelineMemo()
 
 
 def merge_shared(idnt, options):
@@ -1809,6 +1903,22 @@ def resolve_ts(name, names, scratch):
             for f in sorted(src.glob("train_*.txt")):
                 lines = f.read_text().splitlines()
                 (d / f.name).write_text("\n".join(lines[1::3]) + "\n")
+    elif which == "inf":
+        # every third sample; some entries of two features are infinite
+        # (features whose finite values are far below the largest value of
+        # the other features)
+        d = scratch / "ts_inf"
+        if not d.exists():
+            d.mkdir()
+            for f in sorted(src.glob("train_*.txt")):
+                lines = f.read_text().splitlines()[::3]
+                if f.name in ("train_feat_con_apr_flatness.txt",
+                              "train_feat_con_idt_monotony.txt",
+                              "train_feat_con_bln_slope.txt"):
+                    for j in (3, 17, 40, 41):
+                        if j < len(lines):
+                            lines[j] = "inf" if j % 2 else "-inf"
+                (d / f.name).write_text("\n".join(lines) + "\n")
     else:  # "small": every third sample
         d = scratch / "ts_small"
         if not d.exists():
@@ -1820,6 +1930,11 @@ def resolve_ts(name, names, scratch):
         return str(d) if which in ("copy", "zef18") else d   # str and Path
     X, y = IndentationRater.load_training_set(path=d, names=names)
     return (X, y)
+
+
+def seams_reg_names():
+    from nanite.rate.regressors import reg_dict
+    return set(reg_dict)
 
 
 def prep_state(idnt):
@@ -1852,7 +1967,7 @@ def gen_rate_kw(rng):
             + REGRESSORS)
     ts = rng.choice(["zef18", "zef18", "zef18", "dir:copy", "dir:small",
                      "mem:copy", "mem:small", "dir:zef18", "held:small",
-                     "held:copy"])
+                     "held:copy", "dir:inf"])
     if rng.random() < 0.35:
         k = rng.randint(2, 6)
         names = rng.sample(CON_FEATURES, k)
@@ -2379,6 +2494,29 @@ class CurveEngineC09:
                     f"rate_quality returned {val!r}, the standalone rater "
                     f"on a fresh copy gives {exp2!r}", i)
                 break
+            # Q9: the same number from a pipeline the harness assembles
+            # itself from scikit-learn and the documented rules
+            if why == "regressor prediction" and \
+                    reg in seams_reg_names():
+                try:
+                    with warnings.catch_warnings():
+                        warnings.simplefilter("ignore")
+                        hp = HARNESS_PIPES.get(reg, ts_ref, names,
+                                               kw.get("lda"))
+                        exp3 = float(hp.predict(np.atleast_2d(fcon))[0])
+                except Exception:
+                    hp = None
+                if hp is not None:
+                    probes["compared with harness-assembled pipeline"] += 1
+                    if not (val == exp3):
+                        feats["expected_kind"] = "harness pipeline"
+                        violation = make_violation(
+                            self.prop, "Q2", "harness-pipeline", feats,
+                            f"rate_quality returned {val!r}; a scikit-learn "
+                            f"pipeline assembled by the documented rules "
+                            f"(regressor {reg}, lda={kw.get('lda')}) "
+                            f"predicts {exp3!r}", i)
+                        break
             # Q8: the reported rating parameters describe this rating
             rp = idnt.get_rating_parameters()
             exp_hash = idnt.fit_properties.get("hash", "none") \
